@@ -1,7 +1,7 @@
 //! fakesat — the external SAT solver seen from the other side of the pipe (C06, C15, C16, C17).
 //! A strict DIMACS checker + solver (CaDiCaL through crustabri's own wrapper) that logs what it received and can
 //! be told to misbehave.  usage: fakesat [--log FILE] [--mode MODE]
-//!   modes: ok | pad:<bytes> | split:<k> | early | silent | truncated | garbage | nomodel | crash | vnozero
+//!   modes: ok | pad:<bytes> | earlypad:<bytes> | noread:<bytes> | interleave:<bytes> | split:<k> | early | silent | truncated | garbage | nomodel | crash | vnozero
 use crustabri::sat::{CadicalSolver, Literal, SatSolver, SolvingResult};
 use std::io::{Read, Write};
 
@@ -28,8 +28,56 @@ fn main() {
         let _ = out.write_all(b"c early answer\n");
         let _ = out.flush();
     }
+    let padline = "c padding padding padding padding padding padding padding padding\n";
+    if let Some(n) = mode.strip_prefix("earlypad:") {
+        // WriteFirstThenRead: N bytes of comments before consuming stdin
+        let n: usize = n.parse().unwrap();
+        let mut w = 0;
+        while w < n {
+            let _ = out.write_all(padline.as_bytes());
+            w += padline.len();
+        }
+        let _ = out.flush();
+    }
+    if let Some(n) = mode.strip_prefix("noread:") {
+        // ExitWithoutReading: N bytes of comments, then exit without consuming stdin and without a verdict
+        let n: usize = n.parse().unwrap();
+        let mut w = 0;
+        while w < n {
+            let _ = out.write_all(padline.as_bytes());
+            w += padline.len();
+        }
+        let _ = out.flush();
+        return;
+    }
     let mut txt = String::new();
-    std::io::stdin().read_to_string(&mut txt).unwrap();
+    if let Some(n) = mode.strip_prefix("interleave:") {
+        // WriteWhileReading: a comment line after every 4 KiB chunk of stdin, at least N bytes of comments overall
+        let n: usize = n.parse().unwrap();
+        let mut raw: Vec<u8> = vec![];
+        let mut buf = [0u8; 4096];
+        let mut w = 0;
+        let mut inp = std::io::stdin();
+        loop {
+            let k = inp.read(&mut buf).unwrap_or(0);
+            if k == 0 {
+                break;
+            }
+            raw.extend_from_slice(&buf[..k]);
+            for _ in 0..8 {
+                let _ = out.write_all(padline.as_bytes());
+                w += padline.len();
+            }
+            let _ = out.flush();
+        }
+        while w < n {
+            let _ = out.write_all(padline.as_bytes());
+            w += padline.len();
+        }
+        txt = String::from_utf8_lossy(&raw).to_string();
+    } else {
+        std::io::stdin().read_to_string(&mut txt).unwrap();
+    }
     if mode == "crash" {
         std::process::exit(3);
     }
